@@ -401,9 +401,43 @@ def r9(ctx, facts):
                    "fewer shards the late error of an old connection panics the refiller task", c.span)
 
 
+def r10(ctx, facts):
+    """the keepaliver is the only thing that notices a peer which stays connected but stops answering; the router starts it with
+    the CONFIGURED interval and timeout, whatever else is configured (TCP keepalive does not notice an application-level stall)."""
+    from ..util import field_slice
+    r = ctx.rule("R10", "the router hands the keepaliver the configured keepalive interval and timeout, unconditionally", floor=2)
+    b = facts.one(r"^scylla::network::connection::Connection::router::\{closure#0\}$")
+    ks = [c for bb, c in b.calls() if bb in b.live_blocks and (c.name or "").endswith("Connection::keepaliver")]
+    if len(ks) != 1:
+        raise AnchorLost("router: expected one call of Connection::keepaliver, found %d" % len(ks))
+    k = ks[0]
+    opts = [(i, a) for i, a in enumerate(k.args) if a[0] in ("c", "m") and b.local_ty(a[1][0]) == "core::option::Option<core::time::Duration>"]
+    if len(opts) != 2:
+        raise AnchorLost("router: keepaliver is expected to take the interval and the timeout (two Option<Duration>), found %d" % len(opts))
+    for (i, a), want in zip(opts, ("keepalive_interval", "keepalive_timeout")):
+        seen, calls, bins = field_slice(b, a)
+        fields = set()
+        multi = False
+        for l, _ in seen:
+            ds = b.defs.get(l, [])
+            if len(ds) > 1:
+                multi = True
+            for d in ds:
+                if d[0] == "stmt" and d[3][0] == "use" and d[3][1][0] in ("c", "m"):
+                    for e in d[3][1][1][1]:
+                        if isinstance(e, list) and e[0] == "f" and e[2]:
+                            fields.add(e[2])
+        ok = want in fields and not calls and not bins and not multi and not (fields - {want})
+        r.instance("keepaliver-gets-configured-%s" % want.split("_")[1], ok,
+                   "the %s handed to the keepaliver must be a plain copy of the connection config's `%s`; it depends on %s%s: with it switched off a peer that "
+                   "stops answering is never noticed, outstanding requests wait forever and the pool is never told" % (
+                       want.split("_")[1], want, sorted(fields - {want}) or sorted({(c.name or c.decl or "?").split("::")[-1] for c in calls}) or "a branch",
+                       " (several definitions)" if multi else ""), k.span)
+
+
 def check(ctx):
     facts = inline_view(ctx.facts("default"))
-    for fn in (r1, r2_r5, r3, r4, r6, r7, r8, r9):
+    for fn in (r1, r2_r5, r3, r4, r6, r7, r8, r9, r10):
         try:
             fn(ctx, facts)
         except AnchorLost as ex:
